@@ -121,10 +121,10 @@ fn process_create_event(
     paths: &[PathBuf],
 ) -> Option<SourceFileEvent> {
     match create_kind {
-        // Note: maybe we should add CreateKind::Folder as well. Need a confirmation
-        // that move folder from outside a watch directory could fire a create event.
-        // Now it's always Modify(Name(Any)) i.e. Rename
-        CreateKind::File => {
+        // A new folder can already contain files (mkdir -p a/b && echo > a/b/c.ts, cp -r,
+        // git checkout): with inotify, whatever is created in it before the recursive
+        // watch is extended to it is only announced by this Create(Folder) event.
+        CreateKind::File | CreateKind::Folder => {
             if paths.len() != 1 {
                 panic!(
                     "File create event should contain exactly one file. \
